@@ -718,6 +718,47 @@ def check_contraction_indices(ctx: Ctx, geom):
                         break
 
 
+def check_dtypes(ctx: Ctx, geom, jnp):
+    """the value of norm / Levi-Civita contraction / product does not depend on the dtype of the leaf
+    (uint8, bool, int32 incl. large values vs float32 with the same values), and not on which dtype was
+    seen FIRST in the process (called before anything else touches the Levi-Civita symbol)"""
+    rng = ctx.rng
+    for D in (2, 3):
+        dims = (2, 3) if D == 2 else (2, 2, 2)
+        for k in ((1, 2) if D == 2 else (2, 3)):
+            base = rng.integers(16, 41, size=dims + (D,) * k)
+            idx = 0 if D == 2 else (0, 1)
+            for name, dt, vals in (("uint8", jnp.uint8, base), ("bool", jnp.bool_, base % 2),
+                                   ("int32", jnp.int32, base * 1500)):
+                p = int(rng.integers(0, 2))
+                case = {"family": "dtype", "D": D, "dims": list(dims), "k": k, "parity": p, "dtype": name,
+                        "image": jarr(np.asarray(vals))}
+                ctx.case(("dtype", D, k, name, np.asarray(vals).tobytes().hex()[:48]), True,
+                         sample={q: case[q] for q in ("family", "D", "k", "dtype")} if (D, name) == (2, "uint8") and k == 1 else None)
+                ctx.hist("leaf_dtype", name)
+                try:
+                    Ai = geom.GeometricImage(jnp.array(vals, dtype=dt), p, D)
+                    lc_i = Ai.levi_civita_contract(idx)          # integer dtype FIRST
+                    Af = geom.GeometricImage(jnp.array(vals, dtype=jnp.float32), p, D)
+                    lc_f = Af.levi_civita_contract(idx)
+                    n_i, n_f = Ai.norm(), Af.norm()
+                    m_i, m_f = (Ai * Ai).norm(), (Af * Af).norm()
+                except Exception as e:  # noqa: BLE001
+                    ctx.violation("oracle", f"the algebra raised on a {name} leaf", dict(case, raised=repr(e)[:300]))
+                    continue
+                bad = []
+                if (lc_i.k, lc_i.parity) != (lc_f.k, lc_f.parity) or not np.array_equal(
+                        np.asarray(lc_i.data).astype(np.float64), np.asarray(lc_f.data).astype(np.float64)):
+                    bad.append("levi_civita_contract")
+                for what, a, b in (("norm", n_i, n_f), ("norm of the product", m_i, m_f)):
+                    x, y = np.asarray(a.data, dtype=np.float64), np.asarray(b.data, dtype=np.float64)
+                    if x.shape != y.shape or not np.all(np.isfinite(x)) or np.max(np.abs(x - y)) > 1e-5 * (1 + np.max(np.abs(y))):
+                        bad.append(what)
+                if bad:
+                    ctx.violation("oracle", f"{', '.join(bad)}: the result on a {name} leaf differs from the result on the "
+                                            "float32 leaf with the same values", case)
+
+
 def run(ctx: Ctx):
     import jax.numpy as jnp
     import ginjax.geometric as geom
@@ -726,6 +767,9 @@ def run(ctx: Ctx):
     n_trees = 300 if quick else 5000
     max_depth = 4 if quick else 6
     ctx.rule = (
+        "first of all a dtype family (norm, Levi-Civita contraction and product of uint8 / bool / int32 leaves incl. "
+        "values whose squares overflow the integer type, against float32 leaves with the same values, the integer "
+        "dtype being the first the process evaluates); then "
         "random expression trees (pool-based generation, depth <= %d) over 3-5 random leaf images with values in "
         "[-2,2], d in {2,3}, square and non-square spatial shapes (extent 1 included), leaf orders 0..3, node orders "
         "<= 4, both parities, boundary flags all-torus / none / mixed, optional filter leaf (odd extents) for one "
@@ -753,6 +797,7 @@ def run(ctx: Ctx):
         "convolution nodes: the Lean theorem takes the equivariance of convolution as hypothesis ConvHyp.hConv "
         "(property C01); on the implementation they are covered by the oracle like every other node",
     ]
+    check_dtypes(ctx, geom, jnp)  # first: before anything else in this process touches the Levi-Civita symbol
     check_tables(ctx, geom)
     check_laws(ctx, geom, jnp, 40 if quick else 400)
     check_contraction_indices(ctx, geom)
